@@ -217,6 +217,38 @@ LRU['methods'] = [sp for sp in _LRI if sp['py'] not in ('__getitem__', 'get', 's
 for _sp in _LRI + _LRU:
     _sp['gen_file'] = _LRI_GEN
 
+# boltons.queueutils.BasePriorityQueue (round 3b, heap mode).  An entry `[priority, count, task]` is ONE cell of the
+# object store referenced from both `_entry_map[task]` and the backend `_pq`; `remove` marks it through the dict
+# (`entry[-1] = _REMOVED`), `_cull` sees the mark through the backend.  `_pq` is an ABSTRACT BACKEND (type variable β,
+# operations `PyHeap.Backend`: truthiness, `[0]`, `_push_entry`, `_pop_entry` - heapq / BList+insort are not translated),
+# `_counter` (an `itertools.count`) an int incremented per `next`, `_get_priority` (the `priority_key`) a parameter
+# Int -> Int | exception; priorities are ints (the convention of C10/Model.lean's `Op.add`), `default` any object of
+# the second item type.  `__init__` (`**kw`, `itertools.count()`) is not translated.
+BPQ = {
+    'name': 'BasePriorityQueue', 'lean_name': 'BPQ', 'tparams': ['κ', 'ν', 'β'], 'deceq': ['κ'], 'inhabited': ['ν'],
+    'heap': {'field': 'heap', 'key': 'κ', 'val': 'ν', 'int_slots': True},
+    'backend': {'attr': '_pq', 'type': 'β', 'push': '_push_entry', 'pop': '_pop_entry'},
+    'state': {'heap': 'Heap', '_pq': 'β', '_entry_map': 'Dict κ Val', '_counter': 'Counter',
+              '_get_priority': 'Fun Int Int'},
+    'virtual': ['heap'], 'sentinels': ['_REMOVED'], 'test_class': 'HeapPriorityQueue',
+}
+_BPQ = _cls_methods(BPQ, 'boltons.queueutils', [
+    {'py': 'remove', 'name': 'remove', 'params': {'task': 'κ'}, 'result': 'None',
+     'tie_theorem': 'C10.src_remove_eq_model'},
+    {'py': 'add', 'name': 'add', 'params': {'task': 'κ', 'priority': 'Int'}, 'result': 'None',
+     'tie_theorem': 'C10.src_add_eq_model'},
+    {'py': '_cull', 'name': 'cull', 'params': {'raise_exc': 'Bool'}, 'result': 'None', 'loop_fuel': True,
+     'tie_theorem': 'C10.src_cull_eq_model'},
+    {'py': 'peek', 'name': 'peek', 'params': {'default': 'Option ν'}, 'result': 'Val', 'loop_fuel': True,
+     'tie_theorem': 'C10.src_peek_eq_model'},
+    {'py': 'pop', 'name': 'pop', 'params': {'default': 'Option ν'}, 'result': 'Val', 'loop_fuel': True,
+     'tie_theorem': 'C10.src_pop_eq_model'},
+    {'py': '__len__', 'name': 'len', 'params': {}, 'result': 'Int',
+     'tie_theorem': 'C10.src_len_eq_model'},
+])
+for _sp in _BPQ:
+    _sp['gen_file'] = 'queueutils_bpq'
+
 SPECS = {
     'C02': _LRI + _LRU,
     'C20': _TC,
@@ -249,7 +281,7 @@ SPECS = {
             'tie_theorem': 'C11.src_get_apparent_index_eq_model',
         },
     ],
-    'C10': [
+    'C10': _BPQ + [
         {
             'module': 'boltons.listutils', 'qualname': 'BarrelList._translate_index',
             'lean_name': 'translate_index', 'method': True,
